@@ -1,10 +1,10 @@
 SPECIFICATION TSpec
 CONSTANTS
   Threads <- TraceThreads
-  Names <- TraceNames
-  PeerSnl <- TracePeer
-  NameLen <- TraceLen
-  SendMiu = 248
+  Names <- LongNames
+  PeerSnl <- LongPeer
+  NameLen <- LongLen
+  SendMiu = 128
   PopHead = FALSE
   MaxCalls = 100
   WakeCheck = TRUE
